@@ -743,6 +743,7 @@ theorem released_step (c : Conn) (hw : HW c) (hsm : c.hasSm = true) (op : Op)
   | setSched l d => exact .inl hm
   | tick ms => exact .inl hm
   | setSmCallback => exact .inl hm
+  | setSendOnConnect on => exact .inl hm
   | setFlags f => exact .inl (Mem_setFlags hm)
   | usend it => exact .inl (Mem_xmppSend hm)
   | uraw it => exact .inl (Mem_xmppSendRaw hm)
